@@ -18,6 +18,11 @@ native_impl={
 'vxKnown':'if !c { fmt.Println("VXKNOWN " + id) } else { fmt.Println("VXOK " + id) }',
 'vxReach':'fmt.Println("VXREACH " + id)',
 'vxNote':'fmt.Println("VXNOTE " + s)',
+'vxEmit':'fmt.Println("VXOUT " + s)',
+'vxListing':'var out []string; filepath.Walk(".", func(p string, fi os.FileInfo, err error) error { if p != "." { out = append(out, p) }; return nil }); return out',
+'vxNVFile':'os.WriteFile(path, []byte("data\\n"), 0644)',
+'vxNVLines':'os.WriteFile(path, []byte(strings.Join(lines, "\\n")+"\\n"), 0644)',
+'vxFileLines':'b, err := os.ReadFile(path); if err != nil { return nil }; t := strings.TrimSuffix(string(b), "\\n"); if t == "" { return nil }; return strings.Split(t, "\\n")',
 'vxOr':'return a || b','vxAnd':'return a && b','vxNot':'return !a','vxImplies':'return !a || b',
 'vxIte':'if c { return a }; return b',
 'vxCleanPath':'return s != "" && filepath.Clean(s) == s',
@@ -28,7 +33,7 @@ native_impl={
 'vxRunMsg':'return ""',
 'vxGet':'return vxPlanInt("param." + k)',
 'vxSet':'',
-'vxTraceMode':'','vxTraceStatFork':'','vxMapOrder':'','vxMapOrderOff':'','vxMapOrderReverse':'','vxPreemptBudget':'','vxYield':'','vxClockSymbolic':'','vxCmdFree':'','vxSetEnv':'os.Setenv(k, v)',
+'vxTraceMode':'','vxTraceStatFork':'','vxMapOrder':'','vxMapOrderOff':'','vxMapOrderReverse':'','vxPreemptBudget':'','vxPreemptAtFS':'','vxKillAt':'','vxKillAtDesc':'','vxYield':'','vxClockSymbolic':'','vxCmdFree':'','vxSetEnv':'os.Setenv(k, v)',
 }
 def gen(pkgdir, pkgname):
     decl=open(os.path.join(pkgdir,'zz_verif_vx.go')).read()
